@@ -85,8 +85,46 @@ def build(tier):
     return runs.run_many(cfgs)
 
 
+# every regime some check declares as needed (anti-vacuity); the corpus builder keeps adding runs of the forced
+# configuration types with fresh seeds until all of them have been entered, so that no VERIF_SEED can leave a
+# check without its regime (which would be a machinery failure, i.e. a broken check, on the unchanged tree)
+REQUIRED_REGIMES = {"converged", "limit_reached", "repopulated", "rounds_1", "rounds_2plus", "multi_series", "odd_W",
+                    "series_of_exactly_W_rows", "W1", "empty_final_cluster", "vector_beta", "biased_covariance",
+                    "label_switch_under_unequal_per_pair_beta", "scaled_data", "eps_floor",
+                    "label_change_at_series_boundary", "equal_length_series_with_several_labels",
+                    "converged_after_repopulation_with_every_cluster_non_empty"}
+
+
+def _entered(trs):
+    seen = set()
+    for t in trs:
+        if "driver_error" in t or not t.get("events"):
+            continue
+        try:
+            seen |= regimes(t)
+        except Exception:                                    # pylint: disable=broad-except
+            pass
+    return seen
+
+
+def build_complete(tier):
+    trs = build(tier)
+    rng = random.Random(common.seed() * 7919 + 31337)
+    for attempt in range(5):
+        missing = REQUIRED_REGIMES - _entered(trs)
+        if not missing:
+            break
+        extra = []
+        for i in range(26):
+            c = runs.gen_config(rng, i, tier)
+            c["id"] = f"topup{attempt}/{i}"
+            extra.append(c)
+        trs += runs.run_many(extra)
+    return trs
+
+
 def get(tier):
-    trs = cached(f"corpus_{tier}_{common.seed()}", lambda: build(tier))
+    trs = cached(f"corpus_{tier}_{common.seed()}", lambda: build_complete(tier))
     bad = [t for t in trs if "driver_error" in t]
     if bad:
         raise common.MachineryError("run driver failed: " + bad[0]["driver_error"][-1500:])
@@ -108,8 +146,12 @@ def regimes(tr):
         return r
     r.add("completed")
     r.add(hdr["fe"])
+    labels = last["modelLabels"]
     if len(hdr["lens"]) > 1:
         r.add("multi_series")
+        if len(set(hdr["lens"])) == 1 and hdr["lens"][0] > hdr["W"]:
+            if len(set(labels)) > 1:
+                r.add("equal_length_series_with_several_labels")
     if any(e["ev"] == "converged" for e in ev):
         r.add("converged")
     else:
@@ -150,6 +192,11 @@ def regimes(tr):
     r.add("rounds_1" if rounds == 1 else "rounds_2plus")
     if hdr["scale"] != 1.0:
         r.add("scaled_data")
+    if "converged" in r and any(e["ev"] == "phase" and e["name"] == "repopulate" and not e["same_object"]
+                                and e["round"] == max(x["round"] for x in ev if x["ev"] == "round_begin") for e in ev):
+        r.add("converged_in_a_round_that_began_with_repopulation")
+        if all(labels.count(k) > 0 for k in range(K)):
+            r.add("converged_after_repopulation_with_every_cluster_non_empty")
     return r
 
 
